@@ -538,6 +538,36 @@ line_address			(struct frame *		f,
 	if (0 != frame_line) {
 		if (frame_line <= f->last_frame_line) {
 			if (f->n_data_units_extracted_from_packet > 0) {
+				unsigned int n;
+				unsigned int i;
+
+				/* When a frame starts with undefined lines
+				   (line_offset 0) which have the same
+				   field_parity as the last line of the
+				   previous frame we could not tell that a
+				   new frame commences and added them to the
+				   previous frame. A PES packet contains data
+				   of one frame only, so if nothing but
+				   undefined lines were extracted from this
+				   packet, give them back: the new frame
+				   commenced at the start of the packet. */
+				n = f->n_data_units_extracted_from_packet;
+				i = 0;
+
+				if (NULL == f->raw
+				    && (unsigned int)(f->sp - f->sliced_begin) > n) {
+					for (i = 1; i <= n; ++i)
+						if (0 != f->sp[- (int) i].line)
+							break;
+				}
+
+				if (i > n) {
+					f->sp -= n;
+					f->n_data_units_extracted_from_packet = 0;
+
+					return -1; /* new_frame */
+				}
+
 				notice (&f->log,
 					"Illegal line order: %u <= %u.",
 					frame_line, f->last_frame_line);
@@ -1162,6 +1192,11 @@ extract_data_units		(struct frame *		f,
  failed:
 	/* Also called with err = -1 when a new frame begins in
 	   this packet, before any data units were extracted. */
+
+	if (-1 == err) {
+		/* The caller will convert this packet again. */
+		p = *src;
+	}
 
 	*src_left = p_end_m2 + 2 - p;
 	*src = p;
